@@ -22,11 +22,12 @@ type Tape struct {
 	replay  bool
 	pos     int
 	Rec     []int
+	Seed    int64 // of a search tape
 	rng     *rand.Rand
 	Diverge int // replay values that were out of range (clamped by modulo)
 }
 
-func NewSearchTape(seed int64) *Tape { return &Tape{rng: rand.New(rand.NewSource(seed))} }
+func NewSearchTape(seed int64) *Tape { return &Tape{Seed: seed, rng: rand.New(rand.NewSource(seed))} }
 func NewReplayTape(vals []int) *Tape { return &Tape{Replay: vals, replay: true} }
 
 // next returns a choice in [0,n). suggested is used in search mode when >= 0.
